@@ -247,7 +247,7 @@ func (r *ref) step(f []string, op, o string) fw.Verdict {
 		if len(f) > 2 && (f[2] == "del" || f[2] == "dropm") {
 			return r.step(f[2:], strings.Join(f[2:], " "), o)
 		}
-	case "del", "snapdel", "delprobe", "delmon", "dropm":
+	case "del", "snapdel", "delprobe", "delmon", "delheld", "dropm":
 		tmin, tmax := int64(-1<<63), int64(1<<63-1)
 		meas, pred := f[1], "-"
 		if f[0] != "dropm" {
